@@ -577,6 +577,87 @@ def _unfold_comprehension_statements(trees: dict[str, ast.Module], names: set[st
     return n
 
 
+def _expr_body(h: _Helper) -> Optional[ast.expr]:
+    """The expression of a helper whose whole body is `return <expr>` (after an optional docstring)."""
+    body = h.node.body
+    if body and isinstance(body[0], ast.Expr) and isinstance(body[0].value, ast.Constant) and isinstance(body[0].value.value, str):
+        body = body[1:]
+    if len(body) == 1 and isinstance(body[0], ast.Return) and body[0].value is not None:
+        e = body[0].value
+        if not any(isinstance(n, (ast.NamedExpr, ast.Lambda, ast.Yield, ast.YieldFrom, ast.Await)) for n in ast.walk(e)):
+            return e
+    return None
+
+
+def _inline_expr(h: _Helper, call: ast.Call, root: ast.AST, recv: Optional[ast.expr]) -> bool:
+    """Replace `call` (anywhere below `root`, also inside comprehensions / lambdas / short-circuit operands) by the helper's expression with
+    the parameters replaced by the arguments.  Only for arguments that are cheap and pure to repeat (names, constants, attribute chains) or
+    parameters that occur once."""
+    e = _expr_body(h)
+    if e is None:
+        return False
+    a = h.node.args
+    params = [x.arg for x in a.posonlyargs + a.args]
+    if h.kind == "method" and not h.static:
+        if not params:
+            return False
+        self_name = params[0]
+        params = params[1:]
+        if not (isinstance(recv, ast.Name) and recv.id == self_name) and not h.classm:
+            return False
+        if h.classm and not (isinstance(recv, ast.Name) and recv.id == self_name):
+            return False
+    if a.vararg or a.kwarg or a.kwonlyargs or any(isinstance(x, ast.Starred) for x in call.args) or any(kw.arg is None for kw in call.keywords):
+        return False
+    bound: dict[str, ast.expr] = dict(zip(params, call.args))
+    if len(call.args) > len(params):
+        return False
+    for kw in call.keywords:
+        if kw.arg not in params or kw.arg in bound:
+            return False
+        bound[kw.arg] = kw.value
+    defaults = dict(zip(params[len(params) - len(a.defaults):], a.defaults)) if a.defaults else {}
+    for pn in params:
+        if pn not in bound:
+            if pn not in defaults:
+                return False
+            bound[pn] = defaults[pn]
+    uses = {pn: len([n for n in ast.walk(e) if isinstance(n, ast.Name) and n.id == pn]) for pn in params}
+
+    def cheap(x: ast.AST) -> bool:
+        return isinstance(x, (ast.Name, ast.Constant)) or (isinstance(x, ast.Attribute) and cheap(x.value))
+
+    if any(uses[pn] > 1 and not cheap(bound[pn]) for pn in params):
+        return False
+    # names bound inside the expression (comprehension targets) must not capture names of the arguments
+    inner_bound = {n.id for n in ast.walk(e) if isinstance(n, ast.Name) and isinstance(n.ctx, ast.Store)}
+    if inner_bound & {n.id for v in bound.values() for n in ast.walk(v) if isinstance(n, ast.Name)}:
+        return False
+    new = copy.deepcopy(e)
+
+    class Sub(ast.NodeTransformer):
+        def visit_Name(self, node):
+            if node.id in bound and isinstance(node.ctx, ast.Load):
+                return copy.deepcopy(bound[node.id])
+            return node
+
+    new = Sub().visit(new)
+    ast.copy_location(new, call)
+
+    class Rep(ast.NodeTransformer):
+        done = False
+
+        def visit(self, node):
+            if node is call:
+                Rep.done = True
+                return new
+            return super().visit(node)
+
+    Rep.done = False
+    Rep().visit(root)
+    return Rep.done
+
+
 def absorb_helpers(trees: dict[str, ast.Module], keep: Iterable[str] = ()) -> dict:
     """N1.  `trees`: module name -> ast.Module (mutated in place)."""
     keep = set(keep) | KEEP | names_used_by_rules()
@@ -654,6 +735,11 @@ def absorb_helpers(trees: dict[str, ast.Module], keep: Iterable[str] = ()) -> di
                         h.reason = "called on a receiver other than self/cls/the class"
                         break
                     hs = _hoistable(call, par)
+                    if hs is None and _expr_body(h) is not None:
+                        encl_ = call
+                        while encl_ is not None and not isinstance(encl_, (ast.FunctionDef, ast.AsyncFunctionDef)):
+                            encl_ = par.get(id(encl_))
+                        hs = (None, encl_) if encl_ is not None else None
                     if hs is None:
                         h.reason = "called in a position that cannot be hoisted"
                         break
@@ -692,6 +778,11 @@ def absorb_helpers(trees: dict[str, ast.Module], keep: Iterable[str] = ()) -> di
                         h.reason = "referenced other than by a direct call"
                         break
                     hs = _hoistable(call, par)
+                    if hs is None and _expr_body(h) is not None:
+                        encl_ = call
+                        while encl_ is not None and not isinstance(encl_, (ast.FunctionDef, ast.AsyncFunctionDef)):
+                            encl_ = par.get(id(encl_))
+                        hs = (None, encl_) if encl_ is not None else None
                     if hs is None:
                         h.reason = "called in a position that cannot be hoisted"
                         break
@@ -721,6 +812,12 @@ def absorb_helpers(trees: dict[str, ast.Module], keep: Iterable[str] = ()) -> di
             ok = True
             done = []
             for call, stmt, encl, recv in h.sites:
+                if stmt is None:
+                    if not _inline_expr(h, call, encl, recv):
+                        ok = False
+                        break
+                    done.append(call)
+                    continue
                 lst = _find_list(encl, stmt)
                 if lst is None or not _inline(h, call, stmt, lst, ctr.next(), recv):
                     ok = False
@@ -757,6 +854,35 @@ def _acc_loop(st: ast.stmt) -> Optional[tuple[str, ast.expr, ast.expr, list[ast.
     gens = [ast.comprehension(target=st.target, iter=st.iter, ifs=[], is_async=0)]
     body = st.body
     while True:
+        if len(body) == 2 and isinstance(body[0], ast.Assign) and len(body[0].targets) == 1 and isinstance(body[0].targets[0], ast.Name) and isinstance(body[1], ast.If) and not body[1].orelse:
+            # `t = V` directly followed by `if t ...:` is `if (t := V) ...:`
+            t = body[0].targets[0].id
+            test = copy.deepcopy(body[1].test)
+            holder, fld, idx = None, None, None
+            cur = test
+            parent: Optional[tuple] = None
+            while True:
+                if isinstance(cur, ast.BoolOp):
+                    parent, cur = (cur, "values", 0), cur.values[0]
+                elif isinstance(cur, ast.UnaryOp) and isinstance(cur.op, ast.Not):
+                    parent, cur = (cur, "operand", None), cur.operand
+                elif isinstance(cur, ast.Compare):
+                    parent, cur = (cur, "left", None), cur.left
+                else:
+                    break
+            if isinstance(cur, ast.Name) and cur.id == t and not any(isinstance(n, ast.Name) and n.id == t for n in ast.walk(body[0].value)):
+                wal = ast.copy_location(ast.NamedExpr(target=ast.Name(id=t, ctx=ast.Store()), value=body[0].value), cur)
+                if parent is None:
+                    test = wal
+                else:
+                    pn, pf, pi = parent
+                    if pi is None:
+                        setattr(pn, pf, wal)
+                    else:
+                        getattr(pn, pf)[pi] = wal
+                body = [ast.copy_location(ast.If(test=test, body=body[1].body, orelse=[]), body[1])]
+            else:
+                return None
         if len(body) != 1:
             return None
         s = body[0]
@@ -1305,3 +1431,160 @@ def map_filter_to_comprehensions(tree: ast.Module) -> int:
     T().visit(tree)
     ast.fix_missing_locations(tree)
     return total
+
+
+# --------------------------------------------------------------------------------------------------------------------------
+# N9 container idioms
+# --------------------------------------------------------------------------------------------------------------------------
+
+
+def expand_container_idioms(tree: ast.Module) -> int:
+    """Statement-level short-hands written out as the test-then-act they abbreviate (the normal form, in which "is the key present"
+    is an ordinary branch condition):
+        d.setdefault(k, {}).update(v)   ->  if k not in d: d[k] = {}   ;   d[k].update(v)
+        d.pop(k, None)                   ->  if k in d: d.pop(k)
+        s.discard(x)                     ->  if x in s: s.remove(x)
+    """
+    total = 0
+
+    def load(e: ast.AST) -> ast.AST:
+        c = copy.deepcopy(e)
+        for x in ast.walk(c):
+            if hasattr(x, "ctx"):
+                x.ctx = ast.Load()
+        return c
+
+    for node in ast.walk(tree):
+        for lst in _stmt_lists(node):
+            i = 0
+            while i < len(lst):
+                st = lst[i]
+                new = None
+                if isinstance(st, ast.Expr) and isinstance(st.value, ast.Call) and isinstance(st.value.func, ast.Attribute):
+                    c = st.value
+                    f = c.func
+                    # d.setdefault(k, {}).update(v)
+                    if f.attr in ("update", "append", "add", "extend") and isinstance(f.value, ast.Call) and isinstance(f.value.func, ast.Attribute) and f.value.func.attr == "setdefault" \
+                            and len(f.value.args) == 2 and isinstance(f.value.args[1], (ast.Dict, ast.List, ast.Set, ast.Call)) and not f.value.keywords:
+                        d, k, init = f.value.func.value, f.value.args[0], f.value.args[1]
+                        if (isinstance(init, ast.Dict) and not init.keys) or (isinstance(init, ast.List) and not init.elts) or (isinstance(init, ast.Call) and isinstance(init.func, ast.Name) and init.func.id in ("dict", "list", "set") and not init.args):
+                            guard = ast.If(test=ast.Compare(left=load(k), ops=[ast.NotIn()], comparators=[load(d)]),
+                                           body=[ast.Assign(targets=[ast.Subscript(value=load(d), slice=load(k), ctx=ast.Store())], value=init)], orelse=[])
+                            act = ast.Expr(value=ast.Call(func=ast.Attribute(value=ast.Subscript(value=load(d), slice=load(k), ctx=ast.Load()), attr=f.attr, ctx=ast.Load()), args=c.args, keywords=c.keywords))
+                            new = [guard, act]
+                    # d.pop(k, None)
+                    elif f.attr == "pop" and len(c.args) == 2 and isinstance(c.args[1], ast.Constant) and c.args[1].value is None and not c.keywords:
+                        d, k = f.value, c.args[0]
+                        new = [ast.If(test=ast.Compare(left=load(k), ops=[ast.In()], comparators=[load(d)]),
+                                      body=[ast.Expr(value=ast.Call(func=ast.Attribute(value=load(d), attr="pop", ctx=ast.Load()), args=[load(k)], keywords=[]))], orelse=[])]
+                    # s.discard(x)
+                    elif f.attr == "discard" and len(c.args) == 1 and not c.keywords:
+                        d, k = f.value, c.args[0]
+                        new = [ast.If(test=ast.Compare(left=load(k), ops=[ast.In()], comparators=[load(d)]),
+                                      body=[ast.Expr(value=ast.Call(func=ast.Attribute(value=load(d), attr="remove", ctx=ast.Load()), args=[load(k)], keywords=[]))], orelse=[])]
+                if new is not None:
+                    for s_ in new:
+                        ast.copy_location(s_, st)
+                        for x in ast.walk(s_):
+                            if isinstance(x, (ast.stmt, ast.expr)) and not hasattr(x, "lineno"):
+                                ast.copy_location(x, st)
+                    lst[i:i + 1] = new
+                    total += 1
+                    i += len(new)
+                else:
+                    i += 1
+    ast.fix_missing_locations(tree)
+    return total
+
+
+# --------------------------------------------------------------------------------------------------------------------------
+# N10 continue guards, N11 negation normal form
+# --------------------------------------------------------------------------------------------------------------------------
+
+_FLIP = {ast.Eq: ast.NotEq, ast.NotEq: ast.Eq, ast.Lt: ast.GtE, ast.GtE: ast.Lt, ast.Gt: ast.LtE, ast.LtE: ast.Gt, ast.Is: ast.IsNot, ast.IsNot: ast.Is, ast.In: ast.NotIn, ast.NotIn: ast.In}
+
+
+def _negate(e: ast.expr) -> ast.expr:
+    """not e, with the negation pushed inwards."""
+    if isinstance(e, ast.UnaryOp) and isinstance(e.op, ast.Not):
+        return _nnf(e.operand)
+    if isinstance(e, ast.BoolOp):
+        op = ast.Or() if isinstance(e.op, ast.And) else ast.And()
+        return ast.copy_location(ast.BoolOp(op=op, values=[_negate(v) for v in e.values]), e)
+    if isinstance(e, ast.Compare) and len(e.ops) == 1 and type(e.ops[0]) in _FLIP:
+        return ast.copy_location(ast.Compare(left=e.left, ops=[_FLIP[type(e.ops[0])]()], comparators=e.comparators), e)
+    return ast.copy_location(ast.UnaryOp(op=ast.Not(), operand=e), e)
+
+
+def _nnf(e: ast.expr) -> ast.expr:
+    if isinstance(e, ast.UnaryOp) and isinstance(e.op, ast.Not):
+        return _negate(e.operand)
+    if isinstance(e, ast.BoolOp):
+        vals = []
+        for v in e.values:
+            v2 = _nnf(v)
+            if isinstance(v2, ast.BoolOp) and type(v2.op) is type(e.op):
+                vals += v2.values  # flatten a and (b and c)
+            else:
+                vals.append(v2)
+        return ast.copy_location(ast.BoolOp(op=e.op, values=vals), e)
+    return e
+
+
+def negation_normal_form(tree: ast.Module) -> int:
+    """Conditions (tests of if / while / conditional expressions, comprehension filters) with `not` pushed to the atoms: De Morgan and flipped
+    comparison operators.  `not (a == b and c)` and `a != b or not c` are one condition."""
+    n = 0
+    for node in ast.walk(tree):
+        for fld in ("test",):
+            if isinstance(node, (ast.If, ast.While, ast.IfExp)) and isinstance(getattr(node, fld), ast.expr):
+                before = ast.dump(node.test)
+                node.test = _nnf(node.test)
+                n += before != ast.dump(node.test)
+        if isinstance(node, ast.comprehension):
+            new_ifs = []
+            for c in node.ifs:
+                c2 = _nnf(c)
+                n += ast.dump(c) != ast.dump(c2)
+                # a conjunction in one filter is several filters
+                new_ifs += c2.values if isinstance(c2, ast.BoolOp) and isinstance(c2.op, ast.And) else [c2]
+            node.ifs = new_ifs
+    ast.fix_missing_locations(tree)
+    return n
+
+
+def continue_guards_to_branches(tree: ast.Module) -> int:
+    """Inside a loop body, `if c: continue` followed by the rest of the body is `if not c: <rest>` (and `if c: A  else: continue` + rest is
+    `if c: A; <rest>`): the guard-clause and the nested spelling of one loop."""
+    n = 0
+    changed = True
+    while changed:
+        changed = False
+        for loop in [x for x in ast.walk(tree) if isinstance(x, (ast.For, ast.AsyncFor, ast.While))]:
+            def rewrite(lst: list[ast.stmt]) -> bool:
+                for i, st in enumerate(lst):
+                    if isinstance(st, ast.If):
+                        rest = lst[i + 1:]
+                        if len(st.body) == 1 and isinstance(st.body[0], ast.Continue):
+                            body = st.orelse + rest
+                            if body:
+                                lst[i:] = [ast.copy_location(ast.If(test=_negate(st.test), body=body, orelse=[]), st)]
+                            else:
+                                lst[i:] = []
+                            return True
+                        if len(st.orelse) == 1 and isinstance(st.orelse[0], ast.Continue):
+                            lst[i:] = [ast.copy_location(ast.If(test=st.test, body=st.body + rest, orelse=[]), st)]
+                            return True
+                        # recurse into a trailing if (its branches end the iteration too)
+                        if i == len(lst) - 1:
+                            if rewrite(st.body) or (st.orelse and rewrite(st.orelse)):
+                                return True
+                return False
+
+            if rewrite(loop.body):
+                if not loop.body:
+                    loop.body = [ast.Pass()]
+                n += 1
+                changed = True
+    ast.fix_missing_locations(tree)
+    return n
